@@ -88,6 +88,12 @@ func init() {
 				}
 			}
 		}
+		// case mapping: runes whose title case differs from their upper case, and a final sigma
+		for _, s := range runeStrings([]string{"a", "B", "ǆ", "ǅ", "Ǆ", "ς", "Σ"}, 3) {
+			for _, fn := range []string{"ToLower", "ToUpper", "Capitalize"} {
+				r.call(hop(fn, "", nil, bs(s)))
+			}
+		}
 		// case styles: words of ASCII letters and digits separated by ' ', '-', '_', '&'
 		m := 4
 		if cfg.Tier == "thorough" {
